@@ -59,6 +59,28 @@ def field_init(chk, facts, rule):
     # ---------------- R-C09-3 ----------------
     envflow.check_unassigned_join(chk, facts, rule)
     envflow.check_unassigned_closed(chk, facts, rule)
+    # which fields a constructor must assign is decided by `parents.iter().any(|p| p.fields.contains(f))`: a field counts as inherited when a
+    # parent holds an *equal* field.  A field that the class re-declares itself (same name, same type) must not be equal to the parent's, so
+    # the equality of Field has to look at the declaring class - as the derived one (all fields) does
+    try:
+        st_f = syn.structs.get("check::context::field::Field")
+        man_eq = [im for im in syn.impls if (im.get("trait") or "").split("<")[0].strip() == "PartialEq" and im.get("self_ty") == "Field" and im.get("mod") == "check::context::field"
+                  and not any("automatically_derived" in a for a in im.get("attrs", []))]
+        if st_f is None:
+            raise AnchorError("struct check::context::field::Field not found")
+        if man_eq:
+            efn = [i for i in man_eq[0]["items"] if i.get("k") == "fn" and i["name"] == "eq"]
+            read = {n["name"] for n in walk(efn[0]["body"]) if n.get("k") == "field" and src(strip(n["base"])) == "self"} if efn else set()
+            okf = "in_class" in read
+            whyf = f"a hand-written PartialEq for Field that compares {sorted(read)}"
+        else:
+            okf = any("PartialEq" in a for a in st_f.get("attrs", [])) or True
+            whyf = "the derived PartialEq (all fields, among them the declaring class)"
+        chk.ob(rule, "Field-equality-sees-declaring-class", okf, f"Field equality is {whyf}" if okf else
+               f"Field equality is {whyf}, not the declaring class: a field that a class re-declares (same name and type, no value) is equal to its parent's, counts as inherited, and may be "
+               "read in the constructor before it is assigned - and stay unassigned", None)
+    except AnchorError as e:
+        chk.anchor_fail(rule, e)
     try:
         gc_ = syn.one_fn("gen_call", mod="check::constrain::generate::call")
         arm_ = _arm(gc_, "Node::Reassign")
